@@ -67,7 +67,19 @@ DiscoverySet ==
       full == { Discovery("x-" \o ToString(m), Rep(Pair16, m), <<>>, "none") : m \in {62, 63, 64} }
               \cup { Discovery("x1-63", Rep(Pair16, 63) \o <<Std(3, 1, <<1>>, <<1>>)>>, <<>>, "none"),
                      Discovery("bx-63-trunc2", Rep(Pair16, 63), <<192, 5>>, "trunc2") }
-  IN good \cup exact \cup bad \cup twice \cup full
+      \* a chunk request refused with a permanent completion code (with or without a body after it): an error, not the
+      \* chunks gathered so far as if the list had ended
+      refused == { LET recs == ListOf(n * 50 + 3, n)
+                       data == CS!DataOf(recs)
+                       rules == << [rule |-> "refused", when |-> << IsCipherReq, Eq(Slice(Req, 24, 25), B(<<128 + i>>)) >>,
+                                    datagrams |-> << Dg(NullWrapper(0, MsgRsp(7, 84, cc, IF body THEN <<14>> ELSE <<>>)), [kind |-> "chunk-refused"]) >>] >> \o CipherRules(data)
+                   IN [id |-> "ref-" \o ToString(n) \o "-" \o ToString(i) \o "-" \o ToString(cc) \o (IF body THEN "b" ELSE ""),
+                       info |-> [family |-> "discovery-refused", insess |-> FALSE, bytes |-> Len(data), chunks |-> i, tail |-> "none"],
+                       steps |-> << [k |-> "rules", rules |-> rules],
+                                    [k |-> "call", api |-> "RetrieveSupportedCipherSuites", label |-> "discover",
+                                     exp |-> [prop |-> "C16", outcome |-> "error", value |-> <<>>, reqs |-> [j \in 1..(i + 1) |-> CipherReq(j - 1)]]] >>]
+                   : n \in {4, 7, 12}, i \in {0, 1, 2}, cc \in {193, 212, 255}, body \in BOOLEAN }
+  IN good \cup exact \cup bad \cup twice \cup full \cup {sc \in refused : sc.info.bytes >= 16 * sc.info.chunks}
 \* a BMC that answers every request with a full chunk of well-formed records: the enumeration must still end (C05)
 EndlessRule == [rule |-> "endless", when |-> << IsCipherReq >>,
                 datagrams |-> << Dg(NullWrapper(0, MsgRsp(7, 84, 0, <<14>> \o CS!DataOf(Pair16))), [kind |-> "chunk", i |-> 0]) >>]
